@@ -285,16 +285,20 @@ def configs(tier, seed):
         systems = list(SYSTEMS)
         prios = list(PRIOS)
         cap = 400000
-        # every one of the 5! rank patterns of the second objective against the first
-        family(out, seed, ["g1rf2m4", "g1rf3m4"], (1,), ["default", "nd1", "fix1", "lin"], T=5, W=2, n_tab=0,
-               cap=cap, tabs="all")
-        family(out, seed, systems, (1,), prios, T=6, W=2, n_tab=1, cap=cap)
-        family(out, seed, ["g1rf2m4", "g1rf3m4", "g2rf2m5", "g2rf3m4", "g1rf2m5s"], (1,), prios, T=4, W=3, n_tab=1,
-               cap=cap)
-        family(out, seed, ["g1rf2m4", "g1rf3m4", "g2rf2m5", "g1rf2m8"], (1,), ["default", "ndNL", "fix1", "linw"],
-               T=5, W=3, n_tab=1, cap=cap)
-        family(out, seed, systems, (2,), prios, T=4, W=2, n_tab=1, cap=cap)
-        family(out, seed, ["g1rf2m4", "g1rf3m4", "g2rf2m5"], (2,), ["default", "linw"], T=4, W=3, n_tab=1, cap=cap)
+        small = ["g1rf2m4", "g1rf3m4", "g2rf2m5", "g2rf3m4", "g1rf2m5s"]
+        long_ = ["g1rf3m9", "g1rf2m8", "g2rf2m8"]
+        # every one of the 5! rank patterns of the second objective against the first, for each kind of priority
+        family(out, seed, ["g1rf2m4"], (1,), ["default", "fix1"], T=5, W=2, n_tab=0, cap=cap, tabs="all")
+        family(out, seed, ["g1rf3m4"], (1,), ["nd1", "lin"], T=5, W=2, n_tab=0, cap=cap, tabs="all")
+        # sizes below were measured (cpu-s per configuration) so that no single configuration exceeds ~150 cpu-s
+        family(out, seed, small, (1,), prios, T=6, W=2, n_tab=1, cap=cap, pick=4)
+        family(out, seed, long_, (1,), prios, T=4, W=2, n_tab=1, cap=cap, pick=5)
+        family(out, seed, small, (1,), prios, T=4, W=3, n_tab=1, cap=cap, pick=4)
+        family(out, seed, ["g1rf2m4", "g1rf3m4", "g2rf2m5"], (1,), ["default", "ndNL", "fix1", "linw"],
+               T=5, W=3, n_tab=1, cap=cap, pick=1)
+        family(out, seed, systems, (2,), prios, T=4, W=2, n_tab=1, cap=cap, pick=4)
+        family(out, seed, ["g1rf3m4", "g1rf2m4"], (2,), ["default", "linw", "fix1"], T=4, W=3, n_tab=1, cap=cap,
+               pick=1)
     cap = 20000 if quick else 400000
     ci = len(out)
     # single objective (the Pareto order degenerates to a total order) and three objectives
@@ -305,7 +309,7 @@ def configs(tier, seed):
         for prio in ("default", "fix", "lin"):
             for mode in ("m", "M"):
                 p = rotate(all_perms(T1), seed * 3 + ci)
-                sel = [(4, 0, 1, 2, 3)] + [tuple(x) for x in p[:(1 if quick else 4)]]
+                sel = [(4, 0, 1, 2, 3)] + [tuple(x) for x in p[:(1 if quick else 2)]]
                 for j, p0 in enumerate(sel):
                     out.append(dict(sys=sname, brackets=1, prio=prio, mode=mode, k=1, T=T1, W=1 if j == 0 else 2,
                                     perms=level_perms(T1, 1, levels, (p0,), j), max_states=cap, seed=seed))
@@ -316,7 +320,7 @@ def configs(tier, seed):
                 for j in range(1):
                     trip = (tuple(range(4)), p[j], p[(7 * j + 5) % len(p)])
                     out.append(dict(sys=sname, brackets=1, prio=prio, mode=mode, k=3, T=4,
-                                    W=3 if (not quick and mode == "none") else 2,
+                                    W=3 if (not quick and mode == "none" and sname != "g1rf2m8") else 2,
                                     perms=level_perms(4, 3, levels, trip, j), max_states=cap, seed=seed))
                 ci += 1
     return out
